@@ -2,6 +2,7 @@ package checks
 
 import (
 	"bytes"
+	"crypto"
 	"fmt"
 	"testing"
 
@@ -120,6 +121,26 @@ func c03Check(m *MClaims, c psatoken.IClaims, kp keyPair, validating bool, prep 
 	other := keyFor(kp.Alg, kp.Idx+1)
 	if dec.Verify(other.Pub) == nil {
 		return "decoded Evidence verifies with a different key"
+	}
+	// a verifier that tries several candidate keys: after failed attempts
+	// (another key of the same kind, a key of another kind, nil) the right
+	// key still verifies, on the decoded and on the signing Evidence, and
+	// both still expose the same claims
+	for _, e := range []*psatoken.Evidence{dec, ev} {
+		for _, wrong := range []crypto.PublicKey{other.Pub, keyFor(icose.EdDSA, kp.Idx+3).Pub, keyFor(icose.PS256, kp.Idx+1).Pub, nil} {
+			if e.Verify(wrong) == nil {
+				return fmt.Sprintf("Evidence verifies with a wrong key (%T)", wrong)
+			}
+		}
+		if err := e.Verify(kp.Pub); err != nil {
+			return "after failed attempts with other keys the matching key no longer verifies: " + err.Error()
+		}
+		if e.Claims == nil {
+			return "after failed verification attempts the Evidence exposes no claims any more"
+		}
+		if g := ObserveGetters(e.Claims); g != g1 {
+			return fmt.Sprintf("after failed verification attempts the Evidence exposes different claims:\n  before: %s\n  after:  %s", g1, g)
+		}
 	}
 	// second use of the decoded Evidence: a correctly signed token whose
 	// payload is a claims map with one wrong-typed claim does not decode; the
